@@ -10,6 +10,7 @@ From FB.Spec Require Import JsonSpec.
 From FB.Model Require Import Types Monad CreatedFiles SimpleOps Builder.
 From FB.Proofs Require Import JsonLaws ReplayLaws.
 From FB.Proofs Require CacheGenLaws.   (* T1g: the model routines are equal to the translation of the source (Gen/CacheGen.v) *)
+From FB.Proofs Require OpsGenLaws.   (* T1g: build_file*, subbuild, queries, cache validation of file_builder.py = Model/Builder.v (Gen/OpsGen.v) *)
 Import ListNotations.
 
 (* a call of a function whose version differs (as JSON values; absent = None) is never served from the cache *)
